@@ -244,7 +244,7 @@ class Gen:
         self.sid += 1
         return self.sid
 
-    def import_action(self, target, scope, force_alias=False):
+    def import_action(self, target, scope, force_alias=False, avoid_parent=None):
         """an import statement naming module `target` in a random applicable spelling; records bindings in scope"""
         rng = self.rng
         forms = []
@@ -259,6 +259,8 @@ class Gen:
         else:
             forms += ["iq"]
         f = rng.choice(forms)
+        if avoid_parent is not None and f in ("fd", "fq") and b"/".join(target.split(b"/")[:-1]) == avoid_parent:
+            f = "iq"      # `from <this module> import ...` falls back to importing the module itself: a cycle
         if f in ("ii", "iq"):
             alias = self.fresh() if (force_alias or rng.chance(1, 2)) else None
             bound = alias if alias is not None else target.split(b"/")[-1]
@@ -269,7 +271,7 @@ class Gen:
             parents = [target]
             names = [rng.choice(VARS)]
             if rng.chance(1, 3):
-                names.append(rng.choice(VARS + [b"nosuch"]))
+                names.append(rng.choice(VARS + VARS + VARS + [b"nosuch"]))
             quoted = is_ascii_ident(target) and rng.chance(1, 3)
         else:
             parts = target.split(b"/")
@@ -280,8 +282,8 @@ class Gen:
             else:
                 parents = [b"/".join(parts[:-1])]
                 quoted = True
-            if rng.chance(1, 3):
-                names.append(rng.choice([b"a", b"b", b"x0", b"sub", b"nosuch"]))
+            if rng.chance(1, 4):
+                names.append(rng.choice([b"x0", b"x0", b"x1", b"a", b"b", b"sub", b"nosuch"]))
             if rng.chance(1, 8):
                 names.append(names[0])
         imports = []
@@ -328,15 +330,16 @@ class Gen:
         body = [("S", v, i) for v, i in vars_]
         scope = {}
         for _ in range(rng.below(4)):
-            if earlier and rng.chance(5, 6):
+            if earlier and rng.chance(9, 10):
                 t = rng.choice(earlier)
             else:
-                t = rng.choice(MISSING) if rng.chance(1, 3) else (rng.choice(earlier) if earlier else rng.choice(MISSING))
-            if t in MISSING and rng.chance(2, 3):
+                t = rng.choice(MISSING)
+            avoid = name if flavour == "dag" else None
+            if t in MISSING and rng.chance(5, 6):
                 sc2 = {}
-                body.append(("T", [self.import_action(t, sc2)]))
+                body.append(("T", [self.import_action(t, sc2, avoid_parent=avoid)]))
             else:
-                body.append(self.import_action(t, scope))
+                body.append(self.import_action(t, scope, avoid_parent=avoid))
             if rng.chance(1, 2):
                 self.observe(scope, body, False)
         if flavour == "cyclic" and later and rng.chance(1, 2):
@@ -347,9 +350,9 @@ class Gen:
             al = inner[0][2]
             inner.append(("O", [al, b"x0"], -1))
             body.append(("R", 1, inner))
-        if rng.chance(1, 12):
+        if rng.chance(1, 20):
             body.append(("X",))
-        return {"name": name, "ext": rng.choice([b".risor", b".risor", b".rsr"]), "bad": rng.chance(1, 14),
+        return {"name": name, "ext": rng.choice([b".risor", b".risor", b".rsr"]), "bad": rng.chance(1, 30),
                 "vars": vars_, "body": body}
 
     def tree(self, flavour):
@@ -382,7 +385,7 @@ class Gen:
         for _ in range(n_stmts):
             r = rng.below(10)
             if r <= 5:
-                t = rng.choice(names) if rng.chance(9, 10) else rng.choice(MISSING)
+                t = rng.choice(names) if rng.chance(19, 20) else rng.choice(MISSING)
                 if rng.chance(1, 5):
                     sc2 = dict(scope)
                     body = [self.import_action(t, sc2, force_alias=True)]
@@ -512,14 +515,21 @@ RAW_TEXTS = [
 ]
 
 
+VALID_VALUES = [b"a", b"b", b"pkg", b"pkg/a", b"pkg/b", b"pkg/sub", b"pkg/sub/a", b"pkg/x0", b"A/B", b"_", b'"q"', b'"a"',
+                b"bad", b"nope", b"pkg/nope", b"a/b", b"zz/y/x", b"pkg/sub/a/x0", b"a1/b2/c3", b"__a__", b"Z9"]
+
+
 def hostile_texts(rng, n):
     out = list(RAW_TEXTS)
+    for v in VALID_VALUES:
+        out.append("import " + lit(rng, v, plain=True))
+        out.append("from " + lit(rng, v, plain=True) + " import x0")
     for v in HOSTILE_VALUES:
         out.append("import " + lit(rng, v, plain=True))
         out.append("from " + lit(rng, v, plain=True) + " import x0")
     while len(out) < n:
-        v = rng.choice(HOSTILE_VALUES)
-        if rng.chance(1, 3):
+        v = rng.choice(VALID_VALUES) if rng.chance(2, 5) else rng.choice(HOSTILE_VALUES)
+        if rng.chance(1, 4):
             # mutate: splice two values / insert a dangerous piece
             w = rng.choice(HOSTILE_VALUES)
             k = rng.below(len(v) + 1)
@@ -624,39 +634,46 @@ def tree_files(rng, mods, with_sentinels=True):
 
 
 def run_go(obs, cases, work, tag):
-    """cases: list of dict(files, root, rootarg, mains[text bytes]) -> list of list of outputs (one per main)"""
-    shards = max(1, min(C.NCPU, len(cases)))
-    parts = [cases[i::shards] for i in range(shards)]
+    """cases: list of dict(files, root, rootarg, mains[text bytes]) -> list of list of outputs (one per main).
+    The work is cut into small jobs (a few main programs each) scheduled dynamically over the cores, because
+    a runaway import cycle costs a thousand times more than an ordinary program."""
+    units = []
+    for ci, c in enumerate(cases):
+        step = 3
+        for lo in range(0, len(c["mains"]), step):
+            units.append((ci, lo, min(len(c["mains"]), lo + step)))
+    per_job = max(1, len(units) // (C.NCPU * 8))
+    jobs = [units[i:i + per_job] for i in range(0, len(units), per_job)]
 
     def one(k):
-        if not parts[k]:
-            return []
         fin = os.path.join(work, "%s_go_%d.in" % (tag, k))
         with open(fin, "w") as f:
-            for c in parts[k]:
+            for ci, lo, hi in jobs[k]:
+                c = cases[ci]
                 f.write(json.dumps({"files": {p: b.hex() for p, b in c["files"].items()}, "root": c["root"],
-                                    "rootarg": c.get("rootarg", ""), "mains": [m.hex() for m in c["mains"]]}) + "\n")
+                                    "rootarg": c.get("rootarg", ""), "mains": [m.hex() for m in c["mains"][lo:hi]]}) + "\n")
         env = dict(os.environ)
         env["TMPDIR"] = work
         with open(fin, "rb") as i:
-            p = subprocess.run([obs], stdin=i, stdout=subprocess.PIPE, stderr=subprocess.PIPE, env=env, timeout=1500)
+            p = subprocess.run([obs], stdin=i, stdout=subprocess.PIPE, stderr=subprocess.PIPE, env=env, timeout=3000)
+        os.unlink(fin)
         if p.returncode != 0:
             raise RuntimeError("c14obs failed: " + p.stderr.decode("utf-8", "replace")[-2000:])
         lines = p.stdout.decode("utf-8", "replace").splitlines()
         outs = []
         pos = 0
-        for c in parts[k]:
-            n = len(c["mains"])
-            outs.append([json.loads(x) for x in lines[pos:pos + n]])
-            pos += n
+        for ci, lo, hi in jobs[k]:
+            outs.append((ci, lo, [json.loads(x) for x in lines[pos:pos + hi - lo]]))
+            pos += hi - lo
         return outs
 
-    with ThreadPoolExecutor(max_workers=shards) as ex:
-        res = list(ex.map(one, range(shards)))
-    out = [None] * len(cases)
-    for k in range(shards):
-        for j, o in enumerate(res[k]):
-            out[k + j * shards] = o
+    with ThreadPoolExecutor(max_workers=C.NCPU) as ex:
+        res = list(ex.map(one, range(len(jobs))))
+    out = [[None] * len(c["mains"]) for c in cases]
+    for part in res:
+        for ci, lo, outs in part:
+            for j, o in enumerate(outs):
+                out[ci][lo + j] = o
     return out
 
 
@@ -1027,12 +1044,14 @@ def body(res, tools, work, proved):
     def note_viol(route, v, case):
         kind, why, cls = v
         if cls is not None and cls in known_classes:
-            known_hits.setdefault(cls, []).append(why)
+            known_hits.setdefault(cls, {}).setdefault(why, 0)
+            known_hits[cls][why] += 1
         else:
             d = dict(case)
             d.update({"property": PROP, "kind": "oracle-violation", "route": route, "aspect": kind, "why": why})
             oracle_viol.append(d)
 
+    C.log("C14: proofs and tools ready")
     # ---------------- stage A: texts
     texts = hostile_texts(rng, n_texts)
     stats["texts"] = len(texts)
@@ -1097,20 +1116,21 @@ def body(res, tools, work, proved):
             samples.append({"stage": "text", "input": t, "impl_ast": st["past_go"][i][:200], "impl_err": o["plain"]["err"],
                             "impl_events": o["local"]["events"][:8]})
 
+    C.log("C14: stage A done (%d texts)" % len(texts))
     # ---------------- stage B: module trees
     cases = []
     wm, wmains = witness_cases()
     wf, widx, wlabels = tree_files(rng, wm)
     cases.append({"mods": wm, "files": wf, "idx": widx, "labels": wlabels, "rootarg": "",
                   "progs": wmains, "flavour": "witness"})
-    flavours = ["dag"] * 12 + ["cyclic", "selfonce", "selfonce"]
+    flavours = ["dag"] * 22 + ["cyclic", "selfonce"]
     rootargs = ["", "", "", ROOT + "/", "outer/./root", "outer/other/../root", ROOT + "//"]
     for ti in range(n_trees):
         g = Gen(rng)
         fl = rng.choice(flavours)
         mods = g.tree(fl)
         files, idx, labels = tree_files(rng, mods)
-        progs = [g.main(mods) for _ in range(mains_per_tree)]
+        progs = [g.main(mods) for _ in range(mains_per_tree if fl == "dag" else 2)]
         cases.append({"mods": mods, "files": files, "idx": idx, "labels": labels, "rootarg": rng.choice(rootargs),
                       "progs": progs, "flavour": fl})
     go_cases = []
@@ -1121,8 +1141,11 @@ def body(res, tools, work, proved):
         go_cases.append({"files": c["files"], "root": ROOT, "rootarg": c["rootarg"], "mains": mains_txt})
         for p in c["progs"]:
             model_lines.append(enc_case(c["rootarg"] or ROOT, c["mods"], p[0]))
+    C.log("C14: stage B generated (%d programs)" % len(model_lines))
     go_out = run_go(tools["c14obs"], go_cases, work, "stB")
+    C.log("C14: stage B implementation runs done")
     mo_out = run_model(tools["model_importer"], model_lines, work, "stB")
+    C.log("C14: stage B model runs done")
     k = 0
     for ci, c in enumerate(cases):
         cyc = static_cycle_names(c["mods"])
@@ -1191,7 +1214,9 @@ def body(res, tools, work, proved):
 
     for cls, whys in known_hits.items():
         kf = known_classes[cls]
-        res.known_finding("%s [%d observations, e.g. %s]" % (kf.get("what", cls), len(whys), whys[0]))
+        res.known_finding("%s [witness: %s]" % (kf.get("what", cls), kf.get("witness", "")[:160]))
+        cov.setdefault("known_finding_observations", {})[cls] = {"distinct": len(whys), "total": sum(whys.values()),
+                                                                 "examples": sorted(whys)[:3]}
     for v in oracle_viol[:10]:
         res.violation(v)
     if oracle_viol:
